@@ -1,18 +1,20 @@
 package main
 
-type constSpec struct{ dir, name, lean string }
+// group: the Gen/<group>.lean file the fact is written to ("" = Facts.lean)
+type constSpec struct{ dir, name, lean, group string }
 
 var constSpecs = []constSpec{
-	{"pkg/constants", "MaxBlobSize", "maxBlobSize"},
-	{"pkg/blob", "maxOtherDigestLen", "maxOtherDigestLen"},
-	{"pkg/sorted", "MaxKeySize", "maxKeySize"},
-	{"pkg/sorted", "MaxValueSize", "maxValueSize"},
-	{"pkg/blobserver/handlers", "maxStatBlobs", "maxStatBlobs"},
+	{"pkg/constants", "MaxBlobSize", "maxBlobSize", ""},
+	{"pkg/blob", "maxOtherDigestLen", "maxOtherDigestLen", ""},
+	{"pkg/sorted", "MaxKeySize", "maxKeySize", ""},
+	{"pkg/sorted", "MaxValueSize", "maxValueSize", ""},
+	{"pkg/blobserver/handlers", "maxStatBlobs", "maxStatBlobs", ""},
 }
 
 type effectSpec struct {
 	dir, recv, fn, lean string
 	pats                []effPattern
+	group               string
 }
 
 var vfsPats = []effPattern{
@@ -22,7 +24,7 @@ var vfsPats = []effPattern{
 }
 
 var effectSpecs = []effectSpec{
-	{"pkg/blobserver/files", "Storage", "ReceiveBlob", "filesReceiveEffects", vfsPats},
+	{"pkg/blobserver/files", "Storage", "ReceiveBlob", "filesReceiveEffects", vfsPats, "C03"},
 }
 
 type fpSpec struct{ dir, recv, fn string }
